@@ -134,6 +134,7 @@ def check(prop, tier, seed, replay):
         nscen = sum(1 for x in lines if '"ev":"Scen"' in x)
         infeasible = [json.loads(x) for x in lines if '"ev":"Scen"' in x and json.loads(x).get("infeasible")]
         reported = []
+        unconfirmed = 0
         for hdr, rec in bad:
             if hdr.get("infeasible"):
                 continue
@@ -146,16 +147,36 @@ def check(prop, tier, seed, replay):
                 b1, _, _ = validate_life(t1, work)
                 hits += 1 if [b for b in b1 if not b[0].get("infeasible")] else 0
             if hits == 0:
-                raise Infra("rejection of scenario %s did not reproduce" % only)
+                # seen once, not reproduced in two re-runs: not a verdict
+                log("UNCONFIRMED (not a verdict): rejection of scenario %s did not reproduce" % only)
+                unconfirmed += 1
+                continue
             if len(reported) < 3:
                 path = next_replay_path(prop)
                 sec = [json.loads(x) for x in lines if json.loads(x).get("t") == rec.get("t")]
                 json.dump({"property": prop, "scenario": only, "rejected": rec, "trace": sec}, open(path, "w"), indent=1)
                 reported.append(path)
-        if infeasible:
-            # the scenario could not be set up (a gate was not reached): the harness or the model is off
+        still = []
+        for h in infeasible:
+            # the scenario could not be set up (a gate was not reached in time): try it again alone, twice
+            only = "%s:%s" % (h["name"], h["kind"])
+            ok = False
+            for _ in range(2):
+                t1 = os.path.join(work, "re.ndjson")
+                run_life(prop, t1, os.path.join(work, "re.json"), only=only)
+                b1, _, l1 = validate_life(t1, work)
+                if not [x for x in l1 if '"ev":"Scen"' in x and json.loads(x).get("infeasible")]:
+                    ok = True
+                    if [b for b in b1 if not b[0].get("infeasible")] and len(reported) < 3:
+                        path = next_replay_path(prop)
+                        json.dump({"property": prop, "scenario": only, "rejected": b1[0][1]}, open(path, "w"), indent=1)
+                        reported.append(path)
+                    break
+            if not ok:
+                still.append(h)
+        if still and not reported:
             raise Infra("infeasible scenarios: " + "; ".join("%s:%s %s" % (h["name"], h["kind"], h["infeasible"])
-                                                            for h in infeasible[:5]))
+                                                            for h in still[:5]))
         # 3. free workloads with cancellations at arbitrary instants
         m3calls = 0
         if prop in M3[tier]:
@@ -184,7 +205,7 @@ def check(prop, tier, seed, replay):
                        "end, crash, restart or Close inside the window of a call); plus %d calls of free workloads with "
                        "cancellations at arbitrary instants" % (prop, REPS[tier], m3calls),
                "samples": samples, "design_level": design, "deviations_enabled": devs, "trace_states": tstates,
-               "m3_calls": m3calls}
+               "m3_calls": m3calls, "unconfirmed_rejections": unconfirmed}
         write_evidence(prop, tier, seed, "model_checking", cov, time.time() - t0, len(reported),
                        ["liveness is read as safety over quiescent states: no library step enabled (model) / no library "
                         "event for the quiescence period (real runs); every gorums timer in the scenarios is far below "
